@@ -121,7 +121,28 @@ def run(ctx):
     sets = list(A.calls_in(us.body(fn), "rtosc_arg_arr_len_set"))
     ctx.require(len(sets) == 1, "first_equal_index: expected one rtosc_arg_arr_len_set")
     a = A.kids(sets[0])[1:]
-    arr_ids = {y["referencedDecl"]["id"] for y in A.walk(a[0]) if y.get("kind") == "DeclRefExpr" and y["referencedDecl"]["kind"] == "ParmVarDecl"}
+    def _param_origin(e, depth=0):
+        """the parameters an expression is computed from, local pointer copies (`T* const hdr = rhs;`, never reassigned) followed"""
+        out = set()
+        for y in A.walk(e):
+            if y.get("kind") != "DeclRefExpr":
+                continue
+            rd = y.get("referencedDecl") or {}
+            if rd.get("kind") == "ParmVarDecl":
+                out.add(rd["id"])
+            elif rd.get("kind") == "VarDecl" and depth < 4:
+                d = us.by_id.get(rd.get("id"))
+                if d is None or not A.kids(d):
+                    raise AnalysisBroken("R12.4: the array header handed to rtosc_arg_arr_len_set goes through the local `%s` without initialiser" % rd.get("name"))
+                restored = [z for z in A.walk(us.body(fn)) if (z.get("kind") in ("BinaryOperator", "CompoundAssignOperator") and z.get("opcode", "").endswith("=") and
+                                                                 z.get("opcode") not in ("==", "!=", "<=", ">=") and A.ref_id(A.kids(z)[0]) == rd["id"]) or
+                            (z.get("kind") == "UnaryOperator" and z.get("opcode") in ("++", "--") and A.ref_id(A.kids(z)[0]) == rd["id"])]
+                if restored:
+                    raise AnalysisBroken("R12.4: the array header handed to rtosc_arg_arr_len_set goes through the local `%s`, which is assigned again" % rd.get("name"))
+                out |= _param_origin(A.kids(d)[-1], depth + 1)
+        return out
+    arr_ids = _param_origin(a[0])
+    ctx.require(arr_ids, "R12.4: the array whose header rtosc_arg_arr_len_set writes was not traced to a parameter")
     vid = A.ref_id(a[1])
     sources = set()
     for y in A.walk(us.body(fn)):
